@@ -91,6 +91,8 @@ PROPS["C11"] = {
         {"name": "ep2-w8-jacob", "world": "W8-jacob", "src": "props/C11_ep2.c", "tiers": ("thorough",)},
         {"name": "ep2-w8-basic", "world": "W8-basic", "src": "props/C11_ep2.c", "tiers": ("thorough",)},
         {"name": "ep2-w64-381", "world": "W64-381", "src": "props/C11_ep2.c", "tiers": ("thorough",)},
+        {"name": "ep2-w64-446", "world": "W64-446", "src": "props/C11_ep2.c", "tiers": ("thorough",)},
+        {"name": "ep2-w64-446q", "world": "W64-446q", "src": "props/C11_ep2.c", "tiers": ("thorough",)},
     ],
 }
 
@@ -104,6 +106,8 @@ PROPS["C12"] = {
     "jobs": [
         {"name": "pc-w64", "world": "W64", "src": "props/C12_pc.c", "share": 0.5},
         {"name": "pc-w64-381", "world": "W64-381", "src": "props/C12_pc.c"},
+        {"name": "pc-w64-446", "world": "W64-446", "src": "props/C12_pc.c", "tiers": ("thorough",)},
+        {"name": "pc-w64-446q", "world": "W64-446q", "src": "props/C12_pc.c", "tiers": ("thorough",)},
     ],
 }
 
@@ -117,6 +121,8 @@ PROPS["C04"] = {
     "jobs": [
         {"name": "pair-w64", "world": "W64", "src": "props/C04_pair.c", "share": 0.5},
         {"name": "pair-w64-381", "world": "W64-381", "src": "props/C04_pair.c"},
+        {"name": "pair-w64-446", "world": "W64-446", "src": "props/C04_pair.c", "tiers": ("thorough",)},
+        {"name": "pair-w64-446q", "world": "W64-446q", "src": "props/C04_pair.c", "tiers": ("thorough",)},
     ],
 }
 
@@ -130,6 +136,8 @@ PROPS["C18"] = {
     "jobs": [
         {"name": "param-w64", "world": "W64", "src": "props/C18_param.c", "share": 0.4},
         {"name": "param-w64-381", "world": "W64-381", "src": "props/C18_param.c", "share": 0.3},
+        {"name": "param-w64-446", "world": "W64-446", "src": "props/C18_param.c", "tiers": ("thorough",)},
+        {"name": "param-w64-446q", "world": "W64-446q", "src": "props/C18_param.c", "tiers": ("thorough",)},
         {"name": "param-w64-255", "world": "W64-255", "src": "props/C18_param.c"},
     ],
 }
